@@ -225,6 +225,7 @@ def run(ctx):
     scopes_do_not_contain_themselves(ctx)
     scope_struct_type_is_nullable(ctx)
     typedefs_peeled_before_taking_apart(ctx)
+    error_branches_of_actions_leave_a_value(ctx)
     containment_recursion(ctx)
     construction_stacks(ctx)
     lexer_restore_order(ctx)
@@ -1552,3 +1553,33 @@ def typedefs_peeled_before_taking_apart(ctx):
                 ctx.ob("R15.22", "write_function_instance|%s.%s()|after-typedef-peel" % (d["n"], callee_short(c)), ok, f.loc(c),
                        "`%s` is %sasked after the typedef layers were peeled" % (show(c), "" if ok else "NOT "))
     ctx.floor("R15.22", "array/pointer questions to an unwrapped parameter type", n, 2)
+
+
+def error_branches_of_actions_leave_a_value(ctx):
+    """R15.23: a grammar action that finds its result null and calls yyerror() is on an INPUT error path (the parse goes
+    on, only the error count is raised): the value it leaves in $$ is used by the enclosing productions.  Unless the
+    action states the belief that this cannot happen (`assert($$ != nullptr)` - the TYPENAME_IDENTIFIER arms, whose token
+    kind already proves the lookup succeeds), the branch must give $$ a value.  (F-C15t: `decltype(a) a;`.)"""
+    import re
+    db = ctx.db
+    ctx.rule("R15.23", "a grammar action with `if ($$ == nullptr) { ... yyerror ... }` and no assert of non-nullness assigns $$ inside that branch")
+    g = GR.Grammar(db.meta["grammar"])
+    n = 0
+    for nt, alts in g.rules.items():
+        for a in alts:
+            act = a.action or ""
+            for m in re.finditer(r"if\s*\(\s*(?:\$\$\s*==\s*(?:nullptr|NULL)|!\s*\$\$)\s*\)\s*\{", act):
+                depth, j = 1, m.end()
+                while j < len(act) and depth:
+                    depth += {"{": 1, "}": -1}.get(act[j], 0)
+                    j += 1
+                body = act[m.end():j - 1]
+                if "yyerror" not in body:
+                    continue
+                n += 1
+                syms = [x for x in a.syms if x != "@action"]
+                believed = re.search(r"assert\s*\(\s*\$\$\s*!=\s*(?:nullptr|NULL)\s*\)", act[j:]) is not None
+                ok = believed or re.search(r"\$\$\s*=[^=]", body) is not None
+                ctx.ob("R15.23", "%s|%s|error-branch-leaves-a-value" % (nt, "_".join(syms)[:50]), ok, "src/cppparser/cppBison.yxx:%d" % a.line,
+                       "asserted impossible" if believed else ("assigns $$ after the error" if ok else "reports the error and leaves $$ null"))
+    ctx.floor("R15.23", "null-result error branches in grammar actions", n, 8)
